@@ -1,5 +1,5 @@
 (* C16 — bkli yields the maximal common base. Statements only; proofs in Proofs/ToolsProofs.v. *)
-From Coq Require Import String Ascii List ZArith.
+From Coq Require Import String Ascii List ZArith Bool.
 From Bkl Require Import Model.Value Model.Merge Model.Tools Proofs.MapsProofs Proofs.ToolsProofs.
 Import ListNotations.
 Local Open Scope string_scope.
@@ -32,6 +32,18 @@ Theorem C16_map_common : forall am bm k x, In (k, x) (map_of_value (intersect (V
 Proof. exact intersect_map_keys. Qed.
 Print Assumptions C16_map_common.
 
+(* maximal on maps: a key present in both inputs is kept with the intersection of its two values; it is dropped only
+   when that intersection is empty (null). Together with C16_map_common: the result's keys are exactly those. *)
+Theorem C16_map_maximal : forall am bm k va vb, In (k, va) am -> lookup k bm = Some vb ->
+  (is_null va && is_null vb = true -> In (k, VNull) (map_of_value (intersect (VMap am) (VMap bm)))) /\
+  (is_null va && is_null vb = false -> intersect va vb <> VNull ->
+     In (k, intersect va vb) (map_of_value (intersect (VMap am) (VMap bm)))).
+Proof. exact intersect_map_complete. Qed.
+Print Assumptions C16_map_maximal.
+Example C16_map_example :
+  intersect (VMap [("a", VInt 1); ("b", VInt 2); ("c", VNull); ("d", VInt 4)]) (VMap [("a", VInt 1); ("b", VInt 3); ("c", VNull)])
+  = VMap [("a", VInt 1); ("b", VStr "$required"); ("c", VNull)].
+Proof. reflexivity. Qed.
 (* the migrate workflow is lossless: from any base (in particular bkli's), bkld's layer reproduces the input *)
 Theorem C16_migrate : forall input base, dfree (VMap input) -> dfree (VMap base) ->
   (diff (VMap input) (VMap base) = VNull -> VMap input = VMap base) /\
